@@ -75,6 +75,7 @@ class SkelTr:
                       if any(isinstance(d, ast.Name) and d.id == "property" for d in n.decorator_list)}
         self.helpers: list[str] = []
         self.loops: list[tuple[str, str]] = []      # (text of `continue`, text of `break`) of the enclosing loops
+        self.super_level = 1                        # where `super()` starts looking in the chain of bases
         self.nhelp = 0
 
     # ---- resolution ------------------------------------------------------------------------------------
@@ -84,6 +85,16 @@ class SkelTr:
                 if isinstance(n, ast.FunctionDef) and n.name == name:
                     return n
         return None
+
+    def base_method_from(self, name: str, level: int):
+        """The method `name` in the first base class at position >= level (1 = the first base), and that position."""
+        for i, (rel, c) in enumerate(self.classes[1:], start=1):
+            if i < level:
+                continue
+            for n in c.body:
+                if isinstance(n, ast.FunctionDef) and n.name == name:
+                    return n, i
+        return None, level
 
     @staticmethod
     def trivial(fn: ast.FunctionDef) -> bool:
@@ -248,12 +259,26 @@ class SkelTr:
                     return [f"{ind}let _ ← {m} cfg" if isb else f"{ind}{m} cfg"]
                 if isinstance(c.func.value, ast.Call) and isinstance(c.func.value.func, ast.Name) and \
                         c.func.value.func.id == "super" and not c.args:
-                    b = self.base_method(c.func.attr)
+                    b, lvl = self.base_method_from(c.func.attr, self.super_level)
                     if b is None:
                         raise Untranslatable(f"super().{c.func.attr} not found in the given bases")
                     if self.trivial(b):
                         return []
-                    raise Untranslatable(f"super().{c.func.attr} has a body")
+                    # a base method with a body: its statements in place (straight-line bodies only), its own
+                    # `super()` resolved further up the chain
+                    saved, self.super_level = self.super_level, lvl + 1
+                    try:
+                        lines: list[str] = []
+                        for st in b.body:
+                            if self.is_log(st) or isinstance(st, ast.Pass) or (isinstance(st, ast.Expr) and
+                                    isinstance(st.value, ast.Constant) and isinstance(st.value.value, str)):
+                                continue
+                            if not isinstance(st, (ast.Expr, ast.Assign)):
+                                raise Untranslatable(f"super().{c.func.attr}: body is not straight-line")
+                            lines += self.simple(st, ind, locs)
+                        return lines
+                    finally:
+                        self.super_level = saved
         raise Untranslatable(f"unsupported statement `{ast.unparse(s).splitlines()[0]}`")
 
     def compound(self, s: ast.stmt, k: str, ind: str, ret: str, locs: set[str], mname: str) -> list[str]:
@@ -407,6 +432,14 @@ CONTROL_SPEC = dict(
     enums={"ControlCommands": {"PAUSE": ".pause", "RESUME": ".resume", "SHUTDOWN": ".shutdown", "SAVE_STATE": ".save"}},
     fuel={"process_received_web_api_commands": "(← get).cmds.length + 1"},
 )
+
+def hooks_spec(rel: str, cls: str, comp: str) -> dict:
+    """`on_paused` / `on_resumed` of a background thread class: the user's hooks (of `comp`) and the paused flag."""
+    return dict(rel=rel, cls=cls,
+                bases=[("thread/threads/base.py", "BackgroundThread"), ("thread/threads/base.py", "Thread"),
+                       ("thread/thread_control.py", "ThreadEventMixin")],
+                collaborators={comp, "_thread_status"})
+
 
 HANDLER_SPEC = dict(
     rel="thread/thread_control.py", cls="ControllerCommandHandler", bases=[],
